@@ -4,10 +4,12 @@
 package c08
 
 import (
-	"os"
 	"encoding/json"
 	"errors"
 	"fmt"
+	"github.com/goatcms/goatcore/app"
+	"github.com/goatcms/goatcore/app/scope/eventscope"
+	"os"
 	"sort"
 	"strings"
 
@@ -25,7 +27,7 @@ import (
 type Program struct {
 	Name      string   `json:"name"`
 	Files     []string `json:"files"`
-	Dirs      []string `json:"dirs"` // extra (possibly empty) directories
+	Dirs      []string `json:"dirs"`   // extra (possibly empty) directories
 	Filter    string   `json:"filter"` // none | rejectd | filesonly
 	Producers int      `json:"producers"`
 	Consumers int      `json:"consumers"`
@@ -33,7 +35,11 @@ type Program struct {
 	ChanSize  int      `json:"chansize"`
 	FailCB    string   `json:"failcb"`   // path whose callback fails ("" = none)
 	FailList  string   `json:"faillist"` // directory whose listing fails ("" = none)
-	Bound     int      `json:"bound"`
+	// KillAt / KillEvent: the loop is bound to an event scope, and the callback of this path fires Kill
+	// (or Error) on that scope - the walk is interrupted from outside, no callback or listing fails
+	KillAt    string `json:"kill_at,omitempty"`
+	KillEvent string `json:"kill_event,omitempty"` // kill | error
+	Bound     int    `json:"bound"`
 }
 
 type witness struct {
@@ -42,12 +48,12 @@ type witness struct {
 }
 
 type obs struct {
-	files, dirs      []string
-	running, maxRun  int
-	afterWait        int // callbacks that began or were still running after Wait returned
-	waitReturned     bool
-	errs             []string
-	done             bool
+	files, dirs     []string
+	running, maxRun int
+	afterWait       int // callbacks that began or were still running after Wait returned
+	waitReturned    bool
+	errs            []string
+	done            bool
 }
 
 var errInjected = errors.New("injected-callback-error")
@@ -122,7 +128,22 @@ func body(p Program, o *obs) func() {
 		case "nofileb":
 			ld.FileFilter = func(_ filesystem.Filespace, sub string) bool { return !strings.HasSuffix(sub, "b") }
 		}
-		loop := fsloop.NewLoop(ld, nil)
+		var evs app.EventScope
+		if p.KillAt != "" {
+			evs = eventscope.New()
+			inner := ld.OnFile
+			ld.OnFile = func(f filesystem.Filespace, sub string) error {
+				if sub == p.KillAt {
+					if p.KillEvent == "error" {
+						evs.Trigger(app.ErrorEvent, nil)
+					} else {
+						evs.Trigger(app.KillEvent, nil)
+					}
+				}
+				return inner(f, sub)
+			}
+		}
+		loop := fsloop.NewLoop(ld, evs)
 		loop.Run("")
 		loop.Wait()
 		vsched.Note("wait-returned")
@@ -240,6 +261,16 @@ func judge(p Program, o *obs, x *explore.Exec) (clause, sig, detail string) {
 		}
 		return "", "", ""
 	}
+	if p.KillAt != "" && len(o.errs) != 0 {
+		// interrupted through its scope and saying so: the walk may be cut short, nothing may repeat
+		if d := dup(o.files); d != "" {
+			return "exactly once", "C08/file-repeated", "file callback repeated for " + d
+		}
+		if d := dup(o.dirs); d != "" {
+			return "exactly once", "C08/dir-repeated", "dir callback repeated for " + d
+		}
+		return "", "", ""
+	}
 	wf, wd := expected(p)
 	gf, gd := sorted(o.files), sorted(o.dirs)
 	if len(o.errs) != 0 {
@@ -346,6 +377,14 @@ func programs(thorough bool) []Program {
 	add(p)
 	p.Producers = 2
 	add(p)
+	// interrupted from outside: the loop's event scope fires Kill / Error while the walk is in progress
+	// (with an empty error list nothing may have been skipped)
+	for _, ev := range []string{"kill", "error"} {
+		p = Program{Name: "scope-" + ev, Files: []string{"a", "b", "d/c"}, Filter: "none", Producers: 1, Consumers: 1, MaxJob: 2, ChanSize: 1000, Bound: base.Bound, KillAt: "./a", KillEvent: ev}
+		add(p)
+		p.Consumers, p.Producers = 2, 2
+		add(p)
+	}
 	// back-pressure: more nodes than channel capacity
 	p = Program{Name: "backpressure", Files: []string{"a", "b", "c"}, Filter: "none", Producers: 1, Consumers: 1, MaxJob: 2, ChanSize: 1, Bound: 1}
 	add(p)
@@ -443,6 +482,6 @@ func replay(w json.RawMessage) (*fw.Violation, error) {
 func init() {
 	fw.Register(&fw.Check{ID: "C08", Level: "model_checking",
 		Rule: "programs = tree shape x filter x (producers,consumers) x MaxJob x channel capacity x injected callback/listing failure; for each program every schedule of the real fsloop/jobsync code with at most `bound` preemptions is executed (stateless DFS, fair yield); distinct = distinct schedule traces (thread/op/object sequences)",
-		Run:   run, Replay: replay,
+		Run:  run, Replay: replay,
 		Assumptions: []string{"all cross-thread communication of fsloop/jobsync goes through instrumented sync/channel operations", "preemption bound per program as reported (max_bound_completed); 2 consumers/producers at most", "memfs and harness callbacks are non-preemptive except at the explicit callback point"}})
 }
